@@ -35,7 +35,7 @@ class _S(Contract):
     assumptions = (
         "state types are classes; default construction T() either returns an instance whose exact type is T or raises an Exception",
         "object invariant of ScopeState (proved for __init__ and preserved since nothing else writes): "
-        "the exact type of every stored instance is its key",
+        "every stored value is a State instance (an object, never None) whose exact type is its key",
     )
 
     def callee(self, it, fv):
@@ -56,7 +56,8 @@ class _S(Contract):
         st.assume(QFact(lambda k: z3.Implies(z3.Select(p["has"], k),
                                              z3.And(p["lo"] <= z3.Select(p["pos"], k), z3.Select(p["pos"], k) < p["hi"],
                                                     z3.Select(p["keys"], z3.Select(p["pos"], k)) == k,
-                                                    V.is_cls(k), tyof(it, z3.Select(p["val"], k)) == k)),
+                                                    V.is_cls(k), V.is_ref(z3.Select(p["val"], k)),
+                                                    tyof(it, z3.Select(p["val"], k)) == k)),
                         sort=Val, pattern=lambda k: z3.Select(p["has"], k), name="ss1"))
         st.assume(QFact(lambda i: z3.Implies(z3.And(p["lo"] <= i, i < p["hi"]),
                                              z3.And(z3.Select(p["has"], z3.Select(p["keys"], i)),
